@@ -362,7 +362,7 @@ define_function(data_serial_correlation)
       for (i = 0; i < data_len; i++)
       {
         sccun = (double) *(block_data + data_offset + i);
-        if (i == 0)
+        if (i == 0 && !past_first_block)
         {
           sccfirst = sccun;
         }
